@@ -4,8 +4,10 @@ package props
 
 import (
 	"encoding/json"
+	"strconv"
 	"strings"
 	"testing"
+	"time"
 
 	"pgregory.net/rapid"
 )
@@ -54,6 +56,98 @@ func TestC01_KnownFindings(t *testing.T) {
 
 func init() {
 	registerReplay("c01hist", histReplayer(func() bool { return false }, "C01"))
+}
+
+// ---- the file backend: the process dies inside the file write of a save ----
+// The file backend rewrites one file per save (truncate, then write): dying inside leaves an empty file or a prefix of
+// the content. A restart then either refuses to start (the current behaviour: no position for the vBucket, the stream
+// request panics - nothing is skipped) or resumes every vBucket at or before its first unsettled event. As a refusal
+// takes the process down, every history runs in a child process.
+type c01TornResult struct {
+	Prop   string   `json:"prop,omitempty"`
+	Detail string   `json:"detail,omitempty"`
+	Labels []string `json:"labels"`
+}
+
+func c01TornChild(raw json.RawMessage) any {
+	var sc hScenario
+	_ = json.Unmarshal(raw, &sc)
+	v, labels, _ := runHistory(&sc, isKnown("C01", sigF1) != nil, "C01")
+	r := c01TornResult{Labels: labelList(labels)}
+	if v != nil {
+		r.Prop, r.Detail = v.Prop, v.Detail
+	}
+	return r
+}
+
+// c01TornExec returns a violation detail ("" = none), an error of the harness ("" = none) and the labels.
+func c01TornExec(sc hScenario) (string, string, []string) {
+	cr := runChild("c01torn", sc, 60*time.Second)
+	if cr.Result != nil {
+		var r c01TornResult
+		_ = json.Unmarshal(cr.Result, &r)
+		if r.Prop != "" {
+			return r.Detail, "", r.Labels
+		}
+		return "", "", r.Labels
+	}
+	if cr.TimeOut {
+		return "", "child timed out", nil
+	}
+	if strings.Contains(cr.Stdout, "TORN_RESTART") && (strings.Contains(cr.Stderr, "not found on offset map") || strings.Contains(cr.Stderr, "checkpoint")) {
+		return "", "", []string{"torn_restart_refused", "crash_torn_file"}
+	}
+	return "", "child died outside the restart on a torn file: exit " + strconv.Itoa(cr.Exit) + ": " + cr.Stderr, nil
+}
+
+func TestC01_TornFile(t *testing.T) {
+	w := hWeights{deliver: 44, ack: 26, save: 14, crash: 3, absorbed: 15, maxVb: 4, minOps: 2, maxOps: scale(30, 80)}
+	rapid.Check(t, func(rt *rapid.T) {
+		sc := genHistory(rt, w)
+		sc.File = true
+		if rapid.IntRange(0, 2).Draw(rt, "resetlatest") != 0 {
+			sc.Reset = "latest"
+		}
+		sc.Ops = append(sc.Ops, hOp{Op: "crash", Torn: rapid.IntRange(0, 3).Draw(rt, "torn"), N: rapid.IntRange(0, 4000).Draw(rt, "cut")})
+		journal("C01", "c01torn", sc)
+		d, herr, labels := c01TornExec(sc)
+		journalDone()
+		if herr != "" {
+			rt.Fatalf("harness: %s", herr)
+		}
+		if d != "" {
+			violation(rt, "C01", "c01torn", sc, "%s", d)
+		}
+		has := map[string]bool{}
+		for _, l := range labels {
+			has[l] = true
+		}
+		labs := []string{"torn_file_cases"}
+		for _, l := range []string{"crash_torn_file", "torn_restart_refused", "torn_restart_started", "crash_with_outstanding_ack", "redelivery_checked"} {
+			if has[l] {
+				labs = append(labs, l)
+			}
+		}
+		if has["crash_torn_file"] && sc.Reset == "latest" {
+			labs = append(labs, "torn_file_reset_latest")
+		}
+		record("C01", sc, has["crash_torn_file"], labs...)
+	})
+}
+
+func init() {
+	registerChild("c01torn", c01TornChild)
+	registerReplay("c01torn", func(raw json.RawMessage) string {
+		var sc hScenario
+		if err := json.Unmarshal(raw, &sc); err != nil {
+			return "bad scenario: " + err.Error()
+		}
+		d, herr, _ := c01TornExec(sc)
+		if herr != "" {
+			return ""
+		}
+		return d
+	})
 }
 
 // ---- restart answered with a ROLLBACK (Layer B: real client.OpenStream + observer on the simulated node) ----
